@@ -54,7 +54,7 @@ def check_verbatim(run: Run) -> None:
     p = run.project
     pm = p.mod("core.parser")
     em = p.mod("core.emitter")
-    chains = c04.emitter_escape_chains(em)
+    chains = c04.emitter_escape_chains(em, p)
     if not chains:
         raise AnalysisError("emitter escape chain not found")
     emitter_chain = chains[0][2]
